@@ -118,26 +118,37 @@ def specNode (g : GraphVal) (cn : Str → Str) (define : Bool) (s : SpecSt) (id 
           terms := s.terms ++ [(id, .exported name inner)],
           w := { s.w with exports := s.w.exports ++ [(name, .type, inner)] } }
 
+def importTerm1 (cn : Str → Str) (n : Node) : Option (Nat × Term) :=
+  match n.kind with
+  | .import nm => some (n.id, Term.imp (cn nm))
+  | _ => none
+
 /-- the designated term of every explicit import node -/
 def importTerms (g : GraphVal) (cn : Str → Str) : List (Nat × Term) :=
-  g.nodes.filterMap fun n => match n.kind with | .import nm => some (n.id, Term.imp (cn nm)) | _ => none
+  g.nodes.filterMap (importTerm1 cn)
+
+/-- one entry of the export map: the defining export of a definition is the definition itself
+    (already exported); every other entry binds the designated node -/
+def specExport1 (g : GraphVal) (s : SpecSt) (e : Str × Nat) : Option (Str × Kind × Term) :=
+  match g.node? e.2 with
+  | none => some (e.1, .type, .bad)
+  | some n =>
+    if n.isDefinition ∧ n.exportName = some e.1 then none
+    else some (e.1, n.ty.kind, s.term e.2)
 
 /-- the exports that are not the defining export of a definition -/
 def specExports (g : GraphVal) (s : SpecSt) : List (Str × Kind × Term) :=
-  g.exports.filterMap fun (name, id) =>
-    match g.node? id with
-    | none => some (name, .type, .bad)
-    | some n =>
-      if n.isDefinition ∧ n.exportName = some name then none
-      else some (name, n.ty.kind, s.term id)
+  g.exports.filterMap (specExport1 g s)
+
+def specName1 (s : SpecSt) (k : Kind) (n : Node) : Option (Kind × Term × Str) :=
+  match n.name with
+  | some nm => if n.ty.kind = k then some (k, s.term n.id, nm) else none
+  | none => none
 
 /-- named nodes, by kind (the name section has one map per kind) and then by node index -/
 def specNames (g : GraphVal) (s : SpecSt) : List (Kind × Term × Str) :=
   [Kind.type, .func, .instance, .component, .module, .value].flatMap fun k =>
-    g.nodes.filterMap fun n =>
-      match n.name with
-      | some nm => if n.ty.kind = k then some (k, s.term n.id, nm) else none
-      | none => none
+    g.nodes.filterMap (specName1 s k)
 
 /-- the wiring the graph designates, for the emission order `ord` of its non-import nodes and
     the naming `cn` of shared imports (import name ↦ the name it is imported under) -/
